@@ -153,7 +153,7 @@ pub open spec fn lists_ok<N, E, Ix: IndexType>(ns: Seq<Node<N, Ix>>, es: Seq<Edg
     &&& forall|a: int, i: int| 0 <= a < ns.len() && 0 <= i < ls[a].len() ==> es[#[trigger] ls[a][i]].node[k].0.ix() == a
     &&& forall|e: int| 0 <= e < es.len() ==> (#[trigger] ls[es[e].node[k].0.ix() as int]).contains(e)
 }
-impl<N, E, Ty: EdgeType, Ix: IndexType> Graph<N, E, Ty, Ix> {
+impl<N, E, Ty, Ix: IndexType> Graph<N, E, Ty, Ix> {
     pub open spec fn wf_with(&self, out: Seq<Seq<int>>, inn: Seq<Seq<int>>) -> bool {
         &&& self.nodes@.len() <= end_ix::<Ix>() && self.edges@.len() <= end_ix::<Ix>()
         &&& forall|e: int| 0 <= e < self.edges@.len() ==> (#[trigger] self.edges@[e]).node[0].0.ix() < self.nodes@.len() && self.edges@[e].node[1].0.ix() < self.nodes@.len()
